@@ -14,7 +14,7 @@ Encoding (one constructor = one tagged list):
 * Generic: `(ty "T")` | `lt` | `const`
 * UseTree: `(upath "id" tree)` | `(uname "id")` | `(urename "id" "as")` | `uglob` | `(ugroup tree…)`
 * Item: `(struct (attr…) "id" (gen…) fields)` | `(enum (attr…) "id" (gen…) (variant…))`
-        | `(alias (attr…) "id" (gen…) type)` | `(const (attr…) "id" type (lit…))` | `(use tree)`
+        | `(alias (attr…) "id" (gen…) type)` | `(const (attr…) "id" type <lit>|none)` | `(use tree)`
         | `(mod (attr…) "id" (item…))` | `(other ((seg…)…) (item…))`
 * File: `(file (attr…) (item…) true|false)`
 -/
@@ -89,8 +89,10 @@ partial def item : Sx → Option Item
     some (.enum (← attrs a) id (← generics g) (← vs.mapM variant))
   | .list [.atom "alias", a, .str id, g, t] => do
     some (.alias (← attrs a) id (← generics g) (← ty t))
-  | .list [.atom "const", a, .str id, t, .list ls] => do
-    some (.const (← attrs a) id (← ty t) (← ls.mapM lit))
+  | .list [.atom "const", a, .str id, t, .atom "none"] => do
+    some (.const (← attrs a) id (← ty t) none)
+  | .list [.atom "const", a, .str id, t, l] => do
+    some (.const (← attrs a) id (← ty t) (some (← lit l)))
   | .list [.atom "use", t] => do some (.use (← useTree t))
   | .list [.atom "mod", a, .str id, .list is] => do
     some (.mod (← attrs a) id (← is.mapM item))
